@@ -193,8 +193,25 @@ func (m *manager) SetVersion(ns walletdb.ReadWriteBucket, v uint32) error {
 
 // Versions returns a FRESH slice in declared order on every call (the real
 // managers return their package-level slice, which GetLatestVersion sorts in
-// place; a fresh copy keeps the declared order visible to every call).
-func (m *manager) Versions() []migration.Version { return m.x.versions(m.idx) }
+// place; a fresh copy keeps the declared order visible to every call) — or,
+// in runs with Cfg shared_table, ONE slice per service for the whole run, as
+// the real services do with their package-level table: whatever a call does
+// to the slice it was handed is then seen by the retry and by the next
+// upgrade of the same process.
+func (m *manager) Versions() []migration.Version {
+	x := m.x
+	if x.p.C("shared_table", 0) == 1 {
+		if x.shared == nil {
+			x.shared = map[int][]migration.Version{}
+		}
+		if _, ok := x.shared[m.idx]; !ok {
+			x.shared[m.idx] = x.versions(m.idx)
+			x.env.Count("probe.shared-version-table")
+		}
+		return x.shared[m.idx]
+	}
+	return x.versions(m.idx)
+}
 
 func (x *exec) versions(idx int) []migration.Version {
 	var out []migration.Version
@@ -224,6 +241,7 @@ func (x *exec) versions(idx int) []migration.Version {
 // ---------------------------------------------------------------- executor
 
 type exec struct {
+	shared map[int][]migration.Version
 	env    *core.Env
 	p      *core.Plan
 	file   string
